@@ -154,15 +154,15 @@ Cases/ProbeCase.vos Cases/ProbeCase.vok Cases/ProbeCase.required_vos: Cases/Prob
 Cases/SchedCase.vo Cases/SchedCase.glob Cases/SchedCase.v.beautified Cases/SchedCase.required_vo: Cases/SchedCase.v Base/Prelude.vo Model/Conc.vo
 Cases/SchedCase.vio: Cases/SchedCase.v Base/Prelude.vio Model/Conc.vio
 Cases/SchedCase.vos Cases/SchedCase.vok Cases/SchedCase.required_vos: Cases/SchedCase.v Base/Prelude.vos Model/Conc.vos
-Props/C09.vo Props/C09.glob Props/C09.v.beautified Props/C09.required_vo: Props/C09.v Base/Prelude.vo Model/Limiter.vo Proofs/LimiterProofs.vo
-Props/C09.vio: Props/C09.v Base/Prelude.vio Model/Limiter.vio Proofs/LimiterProofs.vio
-Props/C09.vos Props/C09.vok Props/C09.required_vos: Props/C09.v Base/Prelude.vos Model/Limiter.vos Proofs/LimiterProofs.vos
-Props/C07.vo Props/C07.glob Props/C07.v.beautified Props/C07.required_vo: Props/C07.v Base/Prelude.vo Model/Breaker.vo Proofs/BreakerProofs.vo Model/Conc.vo Proofs/ConcProofs.vo
-Props/C07.vio: Props/C07.v Base/Prelude.vio Model/Breaker.vio Proofs/BreakerProofs.vio Model/Conc.vio Proofs/ConcProofs.vio
-Props/C07.vos Props/C07.vok Props/C07.required_vos: Props/C07.v Base/Prelude.vos Model/Breaker.vos Proofs/BreakerProofs.vos Model/Conc.vos Proofs/ConcProofs.vos
-Props/C08.vo Props/C08.glob Props/C08.v.beautified Props/C08.required_vo: Props/C08.v Base/Prelude.vo Model/Breaker.vo Proofs/BreakerProofs.vo
-Props/C08.vio: Props/C08.v Base/Prelude.vio Model/Breaker.vio Proofs/BreakerProofs.vio
-Props/C08.vos Props/C08.vok Props/C08.required_vos: Props/C08.v Base/Prelude.vos Model/Breaker.vos Proofs/BreakerProofs.vos
+Props/C09.vo Props/C09.glob Props/C09.v.beautified Props/C09.required_vo: Props/C09.v Base/Prelude.vo Model/Limiter.vo Proofs/LimiterProofs.vo Gen/LimiterGen.vo Proofs/LimiterRefine.vo
+Props/C09.vio: Props/C09.v Base/Prelude.vio Model/Limiter.vio Proofs/LimiterProofs.vio Gen/LimiterGen.vio Proofs/LimiterRefine.vio
+Props/C09.vos Props/C09.vok Props/C09.required_vos: Props/C09.v Base/Prelude.vos Model/Limiter.vos Proofs/LimiterProofs.vos Gen/LimiterGen.vos Proofs/LimiterRefine.vos
+Props/C07.vo Props/C07.glob Props/C07.v.beautified Props/C07.required_vo: Props/C07.v Base/Prelude.vo Model/Breaker.vo Proofs/BreakerProofs.vo Model/Conc.vo Proofs/ConcProofs.vo Gen/BreakerGen.vo Proofs/BreakerRefine.vo
+Props/C07.vio: Props/C07.v Base/Prelude.vio Model/Breaker.vio Proofs/BreakerProofs.vio Model/Conc.vio Proofs/ConcProofs.vio Gen/BreakerGen.vio Proofs/BreakerRefine.vio
+Props/C07.vos Props/C07.vok Props/C07.required_vos: Props/C07.v Base/Prelude.vos Model/Breaker.vos Proofs/BreakerProofs.vos Model/Conc.vos Proofs/ConcProofs.vos Gen/BreakerGen.vos Proofs/BreakerRefine.vos
+Props/C08.vo Props/C08.glob Props/C08.v.beautified Props/C08.required_vo: Props/C08.v Base/Prelude.vo Model/Breaker.vo Proofs/BreakerProofs.vo Gen/BreakerGen.vo Proofs/BreakerRefine.vo
+Props/C08.vio: Props/C08.v Base/Prelude.vio Model/Breaker.vio Proofs/BreakerProofs.vio Gen/BreakerGen.vio Proofs/BreakerRefine.vio
+Props/C08.vos Props/C08.vok Props/C08.required_vos: Props/C08.v Base/Prelude.vos Model/Breaker.vos Proofs/BreakerProofs.vos Gen/BreakerGen.vos Proofs/BreakerRefine.vos
 Props/C06.vo Props/C06.glob Props/C06.v.beautified Props/C06.required_vo: Props/C06.v Model/Conc.vo Proofs/PickFlipProofs.vo Base/Prelude.vo Base/Wrap.vo Model/Hash.vo Model/Strategy.vo Proofs/HashProofs.vo Proofs/StrategyProofs.vo
 Props/C06.vio: Props/C06.v Model/Conc.vio Proofs/PickFlipProofs.vio Base/Prelude.vio Base/Wrap.vio Model/Hash.vio Model/Strategy.vio Proofs/HashProofs.vio Proofs/StrategyProofs.vio
 Props/C06.vos Props/C06.vok Props/C06.required_vos: Props/C06.v Model/Conc.vos Proofs/PickFlipProofs.vos Base/Prelude.vos Base/Wrap.vos Model/Hash.vos Model/Strategy.vos Proofs/HashProofs.vos Proofs/StrategyProofs.vos
@@ -175,24 +175,24 @@ Props/C13.vos Props/C13.vok Props/C13.required_vos: Props/C13.v Base/Prelude.vos
 Props/C11.vo Props/C11.glob Props/C11.v.beautified Props/C11.required_vo: Props/C11.v Base/Prelude.vo Model/Strategy.vo Model/LB.vo Proofs/LBProofs.vo Model/Conc.vo Proofs/ConcProofs.vo
 Props/C11.vio: Props/C11.v Base/Prelude.vio Model/Strategy.vio Model/LB.vio Proofs/LBProofs.vio Model/Conc.vio Proofs/ConcProofs.vio
 Props/C11.vos Props/C11.vok Props/C11.required_vos: Props/C11.v Base/Prelude.vos Model/Strategy.vos Model/LB.vos Proofs/LBProofs.vos Model/Conc.vos Proofs/ConcProofs.vos
-Props/C02.vo Props/C02.glob Props/C02.v.beautified Props/C02.required_vo: Props/C02.v Base/Prelude.vo Base/Wrap.vo Model/Hash.vo Model/Strategy.vo Model/LB.vo Proofs/StrategyProofs.vo Proofs/LBProofs.vo Proofs/FailoverProofs.vo
-Props/C02.vio: Props/C02.v Base/Prelude.vio Base/Wrap.vio Model/Hash.vio Model/Strategy.vio Model/LB.vio Proofs/StrategyProofs.vio Proofs/LBProofs.vio Proofs/FailoverProofs.vio
-Props/C02.vos Props/C02.vok Props/C02.required_vos: Props/C02.v Base/Prelude.vos Base/Wrap.vos Model/Hash.vos Model/Strategy.vos Model/LB.vos Proofs/StrategyProofs.vos Proofs/LBProofs.vos Proofs/FailoverProofs.vos
-Props/C04.vo Props/C04.glob Props/C04.v.beautified Props/C04.required_vo: Props/C04.v Base/Prelude.vo Model/Strategy.vo Model/LB.vo Proofs/LBProofs.vo Model/Shutdown.vo Proofs/ShutdownProofs.vo Model/Conc.vo Proofs/ConcProofs.vo
-Props/C04.vio: Props/C04.v Base/Prelude.vio Model/Strategy.vio Model/LB.vio Proofs/LBProofs.vio Model/Shutdown.vio Proofs/ShutdownProofs.vio Model/Conc.vio Proofs/ConcProofs.vio
-Props/C04.vos Props/C04.vok Props/C04.required_vos: Props/C04.v Base/Prelude.vos Model/Strategy.vos Model/LB.vos Proofs/LBProofs.vos Model/Shutdown.vos Proofs/ShutdownProofs.vos Model/Conc.vos Proofs/ConcProofs.vos
+Props/C02.vo Props/C02.glob Props/C02.v.beautified Props/C02.required_vo: Props/C02.v Base/Prelude.vo Base/Wrap.vo Model/Hash.vo Model/Strategy.vo Model/LB.vo Proofs/StrategyProofs.vo Proofs/LBProofs.vo Proofs/FailoverProofs.vo Gen/HealthGen.vo Proofs/HealthRefine.vo
+Props/C02.vio: Props/C02.v Base/Prelude.vio Base/Wrap.vio Model/Hash.vio Model/Strategy.vio Model/LB.vio Proofs/StrategyProofs.vio Proofs/LBProofs.vio Proofs/FailoverProofs.vio Gen/HealthGen.vio Proofs/HealthRefine.vio
+Props/C02.vos Props/C02.vok Props/C02.required_vos: Props/C02.v Base/Prelude.vos Base/Wrap.vos Model/Hash.vos Model/Strategy.vos Model/LB.vos Proofs/StrategyProofs.vos Proofs/LBProofs.vos Proofs/FailoverProofs.vos Gen/HealthGen.vos Proofs/HealthRefine.vos
+Props/C04.vo Props/C04.glob Props/C04.v.beautified Props/C04.required_vo: Props/C04.v Base/Prelude.vo Model/Strategy.vo Model/LB.vo Proofs/LBProofs.vo Model/Shutdown.vo Proofs/ShutdownProofs.vo Model/Conc.vo Proofs/ConcProofs.vo Gen/HealthGen.vo Proofs/HealthRefine.vo
+Props/C04.vio: Props/C04.v Base/Prelude.vio Model/Strategy.vio Model/LB.vio Proofs/LBProofs.vio Model/Shutdown.vio Proofs/ShutdownProofs.vio Model/Conc.vio Proofs/ConcProofs.vio Gen/HealthGen.vio Proofs/HealthRefine.vio
+Props/C04.vos Props/C04.vok Props/C04.required_vos: Props/C04.v Base/Prelude.vos Model/Strategy.vos Model/LB.vos Proofs/LBProofs.vos Model/Shutdown.vos Proofs/ShutdownProofs.vos Model/Conc.vos Proofs/ConcProofs.vos Gen/HealthGen.vos Proofs/HealthRefine.vos
 Props/C03.vo Props/C03.glob Props/C03.v.beautified Props/C03.required_vo: Props/C03.v Base/Prelude.vo Model/Strategy.vo Model/LB.vo Proofs/LBProofs.vo
 Props/C03.vio: Props/C03.v Base/Prelude.vio Model/Strategy.vio Model/LB.vio Proofs/LBProofs.vio
 Props/C03.vos Props/C03.vok Props/C03.required_vos: Props/C03.v Base/Prelude.vos Model/Strategy.vos Model/LB.vos Proofs/LBProofs.vos
 Props/C10.vo Props/C10.glob Props/C10.v.beautified Props/C10.required_vo: Props/C10.v Base/Prelude.vo Base/Bytes.vo Model/Strategy.vo Model/LB.vo Model/Admin.vo Proofs/AdminProofs.vo
 Props/C10.vio: Props/C10.v Base/Prelude.vio Base/Bytes.vio Model/Strategy.vio Model/LB.vio Model/Admin.vio Proofs/AdminProofs.vio
 Props/C10.vos Props/C10.vok Props/C10.required_vos: Props/C10.v Base/Prelude.vos Base/Bytes.vos Model/Strategy.vos Model/LB.vos Model/Admin.vos Proofs/AdminProofs.vos
-Props/C14.vo Props/C14.glob Props/C14.v.beautified Props/C14.required_vo: Props/C14.v Base/Prelude.vo Model/RespWriter.vo Proofs/WriterProofs.vo
-Props/C14.vio: Props/C14.v Base/Prelude.vio Model/RespWriter.vio Proofs/WriterProofs.vio
-Props/C14.vos Props/C14.vok Props/C14.required_vos: Props/C14.v Base/Prelude.vos Model/RespWriter.vos Proofs/WriterProofs.vos
-Props/C15.vo Props/C15.glob Props/C15.v.beautified Props/C15.required_vo: Props/C15.v Base/Prelude.vo Model/RespWriter.vo Proofs/WriterProofs.vo
-Props/C15.vio: Props/C15.v Base/Prelude.vio Model/RespWriter.vio Proofs/WriterProofs.vio
-Props/C15.vos Props/C15.vok Props/C15.required_vos: Props/C15.v Base/Prelude.vos Model/RespWriter.vos Proofs/WriterProofs.vos
+Props/C14.vo Props/C14.glob Props/C14.v.beautified Props/C14.required_vo: Props/C14.v Base/Prelude.vo Model/RespWriter.vo Proofs/WriterProofs.vo Proofs/GzipProofs.vo Proofs/SizeLimitProofs.vo
+Props/C14.vio: Props/C14.v Base/Prelude.vio Model/RespWriter.vio Proofs/WriterProofs.vio Proofs/GzipProofs.vio Proofs/SizeLimitProofs.vio
+Props/C14.vos Props/C14.vok Props/C14.required_vos: Props/C14.v Base/Prelude.vos Model/RespWriter.vos Proofs/WriterProofs.vos Proofs/GzipProofs.vos Proofs/SizeLimitProofs.vos
+Props/C15.vo Props/C15.glob Props/C15.v.beautified Props/C15.required_vo: Props/C15.v Base/Prelude.vo Model/RespWriter.vo Proofs/WriterProofs.vo Proofs/GzipProofs.vo
+Props/C15.vio: Props/C15.v Base/Prelude.vio Model/RespWriter.vio Proofs/WriterProofs.vio Proofs/GzipProofs.vio
+Props/C15.vos Props/C15.vok Props/C15.required_vos: Props/C15.v Base/Prelude.vos Model/RespWriter.vos Proofs/WriterProofs.vos Proofs/GzipProofs.vos
 Props/C16.vo Props/C16.glob Props/C16.v.beautified Props/C16.required_vo: Props/C16.v Base/Prelude.vo Base/Bytes.vo Model/Proxy.vo Proofs/ProxyProofs.vo
 Props/C16.vio: Props/C16.v Base/Prelude.vio Base/Bytes.vio Model/Proxy.vio Proofs/ProxyProofs.vio
 Props/C16.vos Props/C16.vok Props/C16.required_vos: Props/C16.v Base/Prelude.vos Base/Bytes.vos Model/Proxy.vos Proofs/ProxyProofs.vos
@@ -214,3 +214,27 @@ Props/C19.vos Props/C19.vok Props/C19.required_vos: Props/C19.v Base/Prelude.vos
 Props/C12.vo Props/C12.glob Props/C12.v.beautified Props/C12.required_vo: Props/C12.v Gen/Access.vo Model/Lockset.vo Proofs/LocksetProofs.vo
 Props/C12.vio: Props/C12.v Gen/Access.vio Model/Lockset.vio Proofs/LocksetProofs.vio
 Props/C12.vos Props/C12.vok Props/C12.required_vos: Props/C12.v Gen/Access.vos Model/Lockset.vos Proofs/LocksetProofs.vos
+Gen/BreakerGen.vo Gen/BreakerGen.glob Gen/BreakerGen.v.beautified Gen/BreakerGen.required_vo: Gen/BreakerGen.v Base/Prelude.vo
+Gen/BreakerGen.vio: Gen/BreakerGen.v Base/Prelude.vio
+Gen/BreakerGen.vos Gen/BreakerGen.vok Gen/BreakerGen.required_vos: Gen/BreakerGen.v Base/Prelude.vos
+Gen/LimiterGen.vo Gen/LimiterGen.glob Gen/LimiterGen.v.beautified Gen/LimiterGen.required_vo: Gen/LimiterGen.v Base/Prelude.vo
+Gen/LimiterGen.vio: Gen/LimiterGen.v Base/Prelude.vio
+Gen/LimiterGen.vos Gen/LimiterGen.vok Gen/LimiterGen.required_vos: Gen/LimiterGen.v Base/Prelude.vos
+Gen/HealthGen.vo Gen/HealthGen.glob Gen/HealthGen.v.beautified Gen/HealthGen.required_vo: Gen/HealthGen.v Base/Prelude.vo
+Gen/HealthGen.vio: Gen/HealthGen.v Base/Prelude.vio
+Gen/HealthGen.vos Gen/HealthGen.vok Gen/HealthGen.required_vos: Gen/HealthGen.v Base/Prelude.vos
+Proofs/GzipProofs.vo Proofs/GzipProofs.glob Proofs/GzipProofs.v.beautified Proofs/GzipProofs.required_vo: Proofs/GzipProofs.v Base/Prelude.vo Model/RespWriter.vo Proofs/WriterProofs.vo
+Proofs/GzipProofs.vio: Proofs/GzipProofs.v Base/Prelude.vio Model/RespWriter.vio Proofs/WriterProofs.vio
+Proofs/GzipProofs.vos Proofs/GzipProofs.vok Proofs/GzipProofs.required_vos: Proofs/GzipProofs.v Base/Prelude.vos Model/RespWriter.vos Proofs/WriterProofs.vos
+Proofs/SizeLimitProofs.vo Proofs/SizeLimitProofs.glob Proofs/SizeLimitProofs.v.beautified Proofs/SizeLimitProofs.required_vo: Proofs/SizeLimitProofs.v Base/Prelude.vo Model/RespWriter.vo Proofs/WriterProofs.vo Proofs/GzipProofs.vo
+Proofs/SizeLimitProofs.vio: Proofs/SizeLimitProofs.v Base/Prelude.vio Model/RespWriter.vio Proofs/WriterProofs.vio Proofs/GzipProofs.vio
+Proofs/SizeLimitProofs.vos Proofs/SizeLimitProofs.vok Proofs/SizeLimitProofs.required_vos: Proofs/SizeLimitProofs.v Base/Prelude.vos Model/RespWriter.vos Proofs/WriterProofs.vos Proofs/GzipProofs.vos
+Proofs/BreakerRefine.vo Proofs/BreakerRefine.glob Proofs/BreakerRefine.v.beautified Proofs/BreakerRefine.required_vo: Proofs/BreakerRefine.v Base/Prelude.vo Model/Breaker.vo Gen/BreakerGen.vo
+Proofs/BreakerRefine.vio: Proofs/BreakerRefine.v Base/Prelude.vio Model/Breaker.vio Gen/BreakerGen.vio
+Proofs/BreakerRefine.vos Proofs/BreakerRefine.vok Proofs/BreakerRefine.required_vos: Proofs/BreakerRefine.v Base/Prelude.vos Model/Breaker.vos Gen/BreakerGen.vos
+Proofs/LimiterRefine.vo Proofs/LimiterRefine.glob Proofs/LimiterRefine.v.beautified Proofs/LimiterRefine.required_vo: Proofs/LimiterRefine.v Base/Prelude.vo Model/Limiter.vo Gen/LimiterGen.vo
+Proofs/LimiterRefine.vio: Proofs/LimiterRefine.v Base/Prelude.vio Model/Limiter.vio Gen/LimiterGen.vio
+Proofs/LimiterRefine.vos Proofs/LimiterRefine.vok Proofs/LimiterRefine.required_vos: Proofs/LimiterRefine.v Base/Prelude.vos Model/Limiter.vos Gen/LimiterGen.vos
+Proofs/HealthRefine.vo Proofs/HealthRefine.glob Proofs/HealthRefine.v.beautified Proofs/HealthRefine.required_vo: Proofs/HealthRefine.v Base/Prelude.vo Model/Strategy.vo Model/LB.vo Gen/HealthGen.vo
+Proofs/HealthRefine.vio: Proofs/HealthRefine.v Base/Prelude.vio Model/Strategy.vio Model/LB.vio Gen/HealthGen.vio
+Proofs/HealthRefine.vos Proofs/HealthRefine.vok Proofs/HealthRefine.required_vos: Proofs/HealthRefine.v Base/Prelude.vos Model/Strategy.vos Model/LB.vos Gen/HealthGen.vos
